@@ -431,7 +431,7 @@ impl<'a, 'b> Emitter for KEmitter<'a, 'b> {
 const MDL: Path<'static> = Path::new_raw("c02");
 
 /// Build the collection `node` describes and hand it to `k` (exactly once).
-fn with_node(node: &Node, k: K) {
+fn with_node(node: &Node, k: K<'_>) {
     match node {
         Node::Empty => k(&Empty),
         Node::Pair(0, (key, val)) => k(&(key.as_str(), val)),
@@ -527,8 +527,8 @@ fn with_node(node: &Node, k: K) {
             k(&b)
         }),
         Node::Ref(a) => with_node(a, &mut |p| k(&&p)),
-        Node::Dedup(a) => with_node(a, &mut |p| k(p.dedup())),
-        Node::AsMap(a) => with_node(a, &mut |p| k(p.as_map())),
+        Node::Dedup(a) => with_node(a, &mut |p| k(Props::dedup(&p))),
+        Node::AsMap(a) => with_node(a, &mut |p| k(Props::as_map(&p))),
         Node::Span(name, a) => with_node(a, &mut |p| k(&Span::new(MDL, name.as_str(), Empty, p))),
         Node::Metric(name, agg, val, a) => with_node(a, &mut |p| {
             k(&Metric::new(MDL, name.as_str(), agg.as_str(), Empty, val.to_value(), p))
@@ -608,14 +608,13 @@ fn probe_keys(cx: &Cx, list: &[(String, Fp)]) -> Vec<String> {
     let mut set: BTreeSet<String> = cx.probes.iter().cloned().collect();
     let mut derived = 0;
     for (k, _) in list {
-        if set.insert(k.clone()) || derived < 6 {
-            if derived < 6 {
-                derived += 1;
-                set.insert(format!("{}x", k));
-                set.insert(format!("{}\u{0}", k));
-                if let Some(p) = char_prefix(k) {
-                    set.insert(p.to_string());
-                }
+        // neighbours (extensions, prefixes) of the first few enumerated keys
+        if set.insert(k.clone()) && derived < 6 {
+            derived += 1;
+            set.insert(format!("{}x", k));
+            set.insert(format!("{}\u{0}", k));
+            if let Some(p) = char_prefix(k) {
+                set.insert(p.to_string());
             }
         }
     }
@@ -632,7 +631,7 @@ fn viol(r: &mut Report, cx: &Cx, what: &str, view: &str, detail: String) {
 }
 
 /// The coherence check of one view of one collection. Returns what enumeration yielded.
-fn core<P: Props + ?Sized>(r: &mut Report, cx: &Cx, p: &P, view: &str) -> Vec<(String, Fp)> {
+fn check_view<P: Props + ?Sized>(r: &mut Report, cx: &Cx, p: &P, view: &str) -> Vec<(String, Fp)> {
     r.observe("views-checked", 1);
 
     // 1. enumerate once
@@ -680,6 +679,7 @@ fn core<P: Props + ?Sized>(r: &mut Report, cx: &Cx, p: &P, view: &str) -> Vec<(S
             (Some(_), Some(_)) | (Some(_), None) => r.observe("lookups-of-present-keys", 1),
             _ => r.observe("lookups-of-absent-keys", 1),
         }
+        let get_agrees = want == got.as_ref();
         match (want, &got) {
             (None, None) => {}
             (Some(w), Some(g)) if w == g => {}
@@ -707,7 +707,7 @@ fn core<P: Props + ?Sized>(r: &mut Report, cx: &Cx, p: &P, view: &str) -> Vec<(S
         }
 
         // typed pulls: present keys and a few absent ones
-        if want.is_some() || n % 4 == 0 {
+        if get_agrees && (want.is_some() || n % 4 == 0) {
             r.observe("pulls", 5);
             let key = k.as_str();
             let mut bad: Vec<String> = Vec::new();
@@ -840,23 +840,41 @@ struct Facts {
     has_dup: bool,
 }
 
-/// All views of one sized collection.
+/// All views of one sized collection. Once a view has failed the remaining views of the same
+/// collection are skipped (they would repeat the same finding under other signatures).
 fn check_all<P: Props>(r: &mut Report, cx: &Cx, p: &P) -> Facts {
-    let list = core(r, cx, p, "value");
-    core::<&P>(r, cx, &p, "ref");
-    core::<dyn ErasedProps>(r, cx, p as &dyn ErasedProps, "erased");
-    let d = p.dedup();
-    let dl = core(r, cx, d, "dedup");
-    check_dedup(r, cx, &list, &dl, "dedup");
-    let dl = core::<dyn ErasedProps>(r, cx, d as &dyn ErasedProps, "dedup-erased");
-    check_dedup(r, cx, &list, &dl, "dedup-erased");
-    core(r, cx, p.as_map(), "as_map");
+    let before = r.violation_count();
+    let list = check_view(r, cx, p, "value");
     let mut seen = BTreeSet::new();
     let has_dup = list.iter().any(|(k, _)| !seen.insert(k.as_str()));
-    Facts {
+    let facts = Facts {
         entries: list.len(),
         has_dup,
+    };
+    if r.violation_count() != before {
+        return facts;
     }
+    check_view::<&P>(r, cx, &p, "ref");
+    if r.violation_count() != before {
+        return facts;
+    }
+    check_view::<dyn ErasedProps>(r, cx, p as &dyn ErasedProps, "erased");
+    if r.violation_count() != before {
+        return facts;
+    }
+    let d = p.dedup();
+    let dl = check_view(r, cx, d, "dedup");
+    check_dedup(r, cx, &list, &dl, "dedup");
+    if r.violation_count() != before {
+        return facts;
+    }
+    let dl = check_view::<dyn ErasedProps>(r, cx, d as &dyn ErasedProps, "dedup-erased");
+    check_dedup(r, cx, &list, &dl, "dedup-erased");
+    if r.violation_count() != before {
+        return facts;
+    }
+    check_view(r, cx, p.as_map(), "as_map");
+    facts
 }
 
 fn note_facts(r: &mut Report, f: &Facts, shape: &str) {
@@ -929,7 +947,7 @@ fn run_tree(r: &mut Report, node: &Node, probes: &[String], case: &dyn Fn() -> J
         with_node(node, &mut |p| {
             calls += 1;
             // `p` is `&dyn ErasedProps`: check the unsized view, then every view of the reference
-            core::<dyn ErasedProps>(r, &cx, p, "dyn");
+            check_view::<dyn ErasedProps>(r, &cx, p, "dyn");
             facts = Some(check_all(r, &cx, &p));
         })
     });
@@ -1122,15 +1140,22 @@ fn static_shapes(r: &mut Report, e: &Env, only: Option<&str>, case: &dyn Fn() ->
     sh!("span-in-and", [e.p(0)].and_props(Span::new(MDL, "s", Empty, [e.p(1), e.p(2)])));
     sh!("metric-array", Metric::new(MDL, "m", "count", e.ext_p.clone(), 42, [e.p(0), e.p(1)]));
     sh!("metric-hash", Metric::new(MDL, e.e[0].0.as_str(), "last", Empty, e.v(0).to_value(), &e.hm));
-    sh!("metric-erased", {
+    {
         let m = Metric::new(MDL, "m", "sum", Empty, 1.5, [e.p(0), e.p(1), e.p(2)]);
-        // `erase()` borrows from `m`: check it here
-        let erased = m.erase();
-        let probes = e.probes();
-        let cx = Cx { kind: "metric-erase-view", probes: &probes, case };
-        check_all(r, &cx, &erased);
-        m
-    });
+        sh!("metric-erase-view", m.erase());
+    }
+    {
+        let evt = Event::new(MDL, Template::literal("c02"), Empty, [e.p(0), e.p(1), e.p(2)]);
+        sh!("event-props-ref", evt.props());
+        sh!("event-by-ref-props", {
+            let b = evt.by_ref();
+            *b.props()
+        });
+        sh!("event-erase-props", {
+            let b = evt.erase();
+            *b.props()
+        });
+    }
     sh!("extent-point", e.ext_p.clone());
     sh!("extent-range", e.ext_r.clone());
     sh!("span-ctxt", e.sc);
@@ -1250,13 +1275,14 @@ fn static_shapes(r: &mut Report, e: &Env, only: Option<&str>, case: &dyn Fn() ->
 // macro call sites
 // ---------------------------------------------------------------------------
 
-struct Site<'a> {
-    name: &'a str,
+#[derive(Clone, Copy)]
+struct Site {
+    name: &'static str,
     /// first-wins contents that must be present: final key -> Display text
-    expect: &'a [(&'a str, &'a str)],
+    expect: &'static [(&'static str, &'static str)],
     /// whether `expect` lists every key the collection may enumerate
     exact: bool,
-    absent: &'a [&'a str],
+    absent: &'static [&'static str],
 }
 
 fn site_props<P: Props>(r: &mut Report, site: &Site, p: &P) -> Vec<(String, Fp)> {
@@ -1383,7 +1409,7 @@ fn site_event<P: Props>(r: &mut Report, site: &Site, evt: &Event<P>, msg: &str, 
 /// The emitter behind the `emit!` sites: checks the event it is handed.
 struct SiteEmitter<'a> {
     r: RefCell<&'a mut Report>,
-    site: Cell<Option<(&'a Site<'a>, &'a str, &'a [&'a str])>>,
+    site: Cell<Option<(Site, &'static str, &'static [&'static str])>>,
     called: Cell<u32>,
 }
 
@@ -1393,7 +1419,7 @@ impl<'a> Emitter for SiteEmitter<'a> {
         self.called.set(self.called.get() + 1);
         if let Some((site, msg, holes)) = self.site.get() {
             let mut r = self.r.borrow_mut();
-            site_event(&mut **r, site, &evt, msg, holes);
+            site_event(&mut **r, &site, &evt, msg, holes);
         }
     }
 
@@ -1518,8 +1544,8 @@ fn macro_sites(r: &mut Report) {
         msg: "1||3", holes: ["zz", "0c"], expect: [("zz", "1"), ("0c", "3")], absent: ["a", "b", "c", "yy"]);
     evt_site!("evt-inline-values", ("{a: 1} {b: 2.5} {c: true}"),
         msg: "1 2.5 true", holes: ["a", "b", "c"], expect: [("a", "1"), ("b", "2.5"), ("c", "true")], absent: []);
-    evt_site!("evt-repeated-hole", ("{a} {a} {b}", a: 1, #[emit::key("a.b")] b: 2),
-        msg: "1 1 2", holes: ["a", "a", "a.b"], expect: [("a", "1"), ("a.b", "2")], absent: ["b"]);
+    evt_site!("evt-hole-is-prefix-of-renamed", ("{a} {b} {ab}", a: 1, #[emit::key("a.b")] b: 2, #[emit::key("a")] ab: 3, #[emit::key("ab")] a: 1),
+        msg: "1 2 3", holes: ["ab", "a.b", "a"], expect: [("ab", "1"), ("a.b", "2"), ("a", "3")], absent: ["b"]);
     evt_site!("evt-non-ascii-text", ("é日 {a} 😀 {b}", a: 1, #[emit::key("日")] b: "é"),
         msg: "é日 1 😀 é", holes: ["a", "日"], expect: [("a", "1"), ("日", "é")], absent: ["b"]);
     evt_site!("evt-escaped-braces", ("{{a}} {a} }}{{", a: 1),
@@ -1543,8 +1569,15 @@ fn macro_sites(r: &mut Report) {
     {
         let a = 1;
         let user = String::from("u");
-        evt_site!("evt-captured-from-scope", ("{a} {user}", #[emit::key("the.user")] user),
-            msg: "1 u", holes: ["a", "the.user"], expect: [("a", "1"), ("the.user", "u")], absent: ["user"]);
+        let site = Site {
+            name: "evt-captured-from-scope",
+            expect: &[("a", "1"), ("the.user", "u")],
+            exact: true,
+            absent: &["user"],
+        };
+        match emit::evt!("{a} {user}", #[emit::key("the.user")] user) {
+            evt => site_event(r, &site, &evt, "1 u", &["a", "the.user"]),
+        }
     }
 
     // ---- emit! through a runtime with a recording emitter and an ambient context ----
@@ -1561,11 +1594,8 @@ fn macro_sites(r: &mut Report) {
         macro_rules! emit_site {
             ($name:literal, $mac:ident ( $($body:tt)* ), msg: $msg:expr, holes: $holes:expr, expect: $expect:expr, absent: $absent:expr) => {{
                 let site = Site { name: $name, expect: &$expect, exact: false, absent: &$absent };
-                let holes: &[&str] = &$holes;
-                // the emitter only lives for this block: hand it plain references
-                let site_ref: &Site = unsafe { &*(&site as *const Site) };
-                let holes_ref: &[&str] = unsafe { &*(holes as *const [&str]) };
-                em.site.set(Some((site_ref, $msg, holes_ref)));
+                let holes: &'static [&'static str] = &$holes;
+                em.site.set(Some((site, $msg, holes)));
                 expected_calls += 1;
                 let res = catch(|| emit::$mac!(rt, $($body)*));
                 em.site.set(None);
@@ -1658,12 +1688,15 @@ fn main() {
     // 1. macro call sites (fixed)
     macro_sites(&mut r);
 
+    // Miri interprets ~1000x slower: sizes there are absolute (times --scale), not the tier's
+    let miri = cfg!(miri);
+
     // 2. static generic shapes over seeded entries
-    let n_static = args.n(300, 6_000);
+    let n_static = if miri { (args.scale / 100).max(1) } else { args.n(1_500, 40_000) };
     par_cases(&mut r, &args, n_static, |i, r| static_case(r, seed, i, None));
 
     // 3. dynamic trees
-    let n_dyn = args.n(30_000, 1_000_000);
+    let n_dyn = if miri { (150 * args.scale / 100).max(1) } else { args.n(150_000, 6_000_000) };
     par_cases(&mut r, &args, n_dyn, |i, r| dynamic_case(r, seed, i));
 
     std::process::exit(r.finish());
